@@ -22,7 +22,10 @@ def dist_functionals(obj):
         return {'cacg.covariance': _ucov(obj.covariance_eigenvectors, obj.covariance_eigenvalues),
                 'cacg.eigenvalues': np.sort(np.asarray(obj.covariance_eigenvalues), axis=-1)}
     if n == 'ComplexWatson':
-        return {'watson.projector': _proj(obj.mode), 'watson.concentration': np.asarray(obj.concentration)}
+        conc = np.asarray(obj.concentration)
+        # a Watson distribution of concentration exactly 0 is the uniform one whatever its mode (the scatter matrix had tied
+        # leading eigenvalues and any vector of the eigenspace is a principal eigenvector): the mode is no parameter there
+        return {'watson.projector': _proj(obj.mode) * (conc != 0)[..., None, None], 'watson.concentration': conc}
     if n == 'ComplexBingham':
         return {'bingham.matrix': _ucov(obj.covariance_eigenvectors, obj.covariance_eigenvalues),
                 'bingham.eigenvalues': np.sort(np.asarray(obj.covariance_eigenvalues), axis=-1)}
